@@ -17,8 +17,11 @@ package lexer
 //@ loop 1:
 //@   invariant [bounds] s.start < s.current && s.current <= len(s.source) && s.start == old(s.start) && s.line == old(s.line) && s.tokens == old(s.tokens) && s.source == old(s.source)
 //@   invariant [run] identEnd(s.source, s.start+1) == identEnd(s.source, s.current)
+//@   invariant [noline] nl(s.source, s.current) == nl(s.source, old(s.current))
 //@   decreases len(s.source) - s.current
 //@ ensures [munch] s.current == identEnd(s.source, old(s.start)+1)
+//@ ensures [noline] nl(s.source, s.current) == nl(s.source, old(s.current))
+//@ ensures [bounds] s.start < s.current && s.current <= len(s.source)
 //@ ensures [frame] s.start == old(s.start) && s.line == old(s.line) && s.source == old(s.source)
 //@ ensures [onetoken] len(s.tokens) == old(len(s.tokens))+1 && forall(k, 0, old(len(s.tokens)), s.tokens[k] == old(s.tokens[k]))
 //@ ensures [token] s.tokens[old(len(s.tokens))].Lexeme == text(s.source, s.start, s.current) && s.tokens[old(len(s.tokens))].Line == s.line && s.tokens[old(len(s.tokens))].Literal == nil
@@ -32,13 +35,18 @@ package lexer
 //@ loop 1:
 //@   invariant [bounds] s.start < s.current && s.current <= len(s.source) && s.start == old(s.start) && s.line == old(s.line) && s.tokens == old(s.tokens) && s.source == old(s.source)
 //@   invariant [run] digitsEnd(s.source, s.start) == digitsEnd(s.source, s.current)
+//@   invariant [noline] nl(s.source, s.current) == nl(s.source, old(s.current))
 //@   decreases len(s.source) - s.current
 //@ loop 2:
 //@   invariant [bounds] d+1 <= s.current && s.current <= len(s.source) && s.start == old(s.start) && s.line == old(s.line) && s.tokens == old(s.tokens) && s.source == old(s.source)
 //@   invariant [point] d < len(s.source) && src(s.source, d) == 46 && d+1 < len(s.source) && isDigitSpec(src(s.source, d+1))
 //@   invariant [run] digitsEnd(s.source, d+1) == digitsEnd(s.source, s.current)
+//@   invariant [noline] nl(s.source, s.current) == nl(s.source, old(s.current))
 //@   decreases len(s.source) - s.current
+//@ ensures [kept] len(s.tokens) >= old(len(s.tokens)) && forall(k, 0, old(len(s.tokens)), s.tokens[k] == old(s.tokens[k]))
 //@ ensures [munch] s.current == numberEnd(s.source, old(s.start))
+//@ ensures [noline] nl(s.source, s.current) == nl(s.source, old(s.current))
+//@ ensures [bounds] s.start < s.current && s.current <= len(s.source)
 //@ ensures [frame] s.start == old(s.start) && s.line == old(s.line) && s.source == old(s.source)
 //@ ensures [token] ext.parsefloat.ok(trStr(text(s.source, s.start, s.current))) ==> len(s.tokens) == old(len(s.tokens))+1 && forall(k, 0, old(len(s.tokens)), s.tokens[k] == old(s.tokens[k])) && s.tokens[old(len(s.tokens))].Type == token.NUMBER && s.tokens[old(len(s.tokens))].Lexeme == text(s.source, s.start, s.current) && s.tokens[old(len(s.tokens))].Line == s.line && s.tokens[old(len(s.tokens))].Literal == mkNum(ext.parsefloat.val(trStr(text(s.source, s.start, s.current)))) && utils.HadError == old(utils.HadError) && stderrN == old(stderrN)
 //@ ensures [range] !ext.parsefloat.ok(trStr(text(s.source, s.start, s.current))) ==> s.tokens == old(s.tokens) && utils.HadError && stderrN == old(stderrN)+1 && reportLine(stderr[old(stderrN)]) == s.line
@@ -49,9 +57,11 @@ package lexer
 //@ loop 1:
 //@   invariant [bounds] s.start < s.current && s.current <= len(s.source) && s.start == old(s.start) && s.tokens == old(s.tokens) && s.source == old(s.source)
 //@   invariant [run] findCp(s.source, s.start+1, 34) == findCp(s.source, s.current, 34)
-//@   invariant [line] s.line == old(s.line) + nl(s.source, s.current) - nl(s.source, old(s.current))
+//@   invariant [line] s.line == old(s.line) + nl(s.source, s.current) - nl(s.source, old(s.current)) && s.line >= old(s.line)
 //@   decreases len(s.source) - s.current
+//@ ensures [kept] len(s.tokens) >= old(len(s.tokens)) && forall(k, 0, old(len(s.tokens)), s.tokens[k] == old(s.tokens[k]))
 //@ ensures [munch] (q < len(s.source) ==> s.current == q+1) && (q >= len(s.source) ==> s.current == len(s.source))
+//@ ensures [bounds] s.start < s.current && s.current <= len(s.source) && s.line >= old(s.line)
 //@ ensures [line] s.line == old(s.line) + nl(s.source, s.current) - nl(s.source, old(s.current))
 //@ ensures [frame] s.start == old(s.start) && s.source == old(s.source)
 //@ ensures [token] q < len(s.source) ==> len(s.tokens) == old(len(s.tokens))+1 && forall(k, 0, old(len(s.tokens)), s.tokens[k] == old(s.tokens[k])) && s.tokens[old(len(s.tokens))].Type == token.STRING && s.tokens[old(len(s.tokens))].Lexeme == text(s.source, s.start, s.current) && s.tokens[old(len(s.tokens))].Line == s.line && s.tokens[old(len(s.tokens))].Literal == mkStr(text(s.source, s.start+1, q)) && utils.HadError == old(utils.HadError) && stderrN == old(stderrN)
@@ -63,11 +73,52 @@ package lexer
 //@ loop 1:
 //@   invariant [bounds] s.start+2 <= s.current && s.current <= len(s.source) && s.start == old(s.start) && s.tokens == old(s.tokens) && s.source == old(s.source)
 //@   invariant [run] findStarSlash(s.source, s.start+2) == findStarSlash(s.source, s.current)
-//@   invariant [line] s.line == old(s.line) + nl(s.source, s.current) - nl(s.source, old(s.current))
+//@   invariant [line] s.line == old(s.line) + nl(s.source, s.current) - nl(s.source, old(s.current)) && s.line >= old(s.line)
 //@   invariant [silent] utils.HadError == old(utils.HadError) && stderrN == old(stderrN)
 //@   decreases len(s.source) - s.current
+//@ ensures [kept] len(s.tokens) >= old(len(s.tokens)) && forall(k, 0, old(len(s.tokens)), s.tokens[k] == old(s.tokens[k]))
 //@ ensures [munch] (cq < len(s.source) ==> s.current == cq+2) && (cq >= len(s.source) ==> s.current == len(s.source))
+//@ ensures [bounds] s.start < s.current && s.current <= len(s.source) && s.line >= old(s.line)
 //@ ensures [line] s.line == old(s.line) + nl(s.source, s.current) - nl(s.source, old(s.current))
 //@ ensures [frame] s.start == old(s.start) && s.source == old(s.source) && s.tokens == old(s.tokens)
 //@ ensures [closed] cq < len(s.source) ==> utils.HadError == old(utils.HadError) && stderrN == old(stderrN)
 //@ ensures [unterminated] cq >= len(s.source) ==> utils.HadError && stderrN == old(stderrN)+1 && reportLine(stderr[old(stderrN)]) == s.line
+
+// scanToken handles exactly one piece of the text: the longest one that starts at s.start (maximal munch).  It appends one
+// token (pieceKind 1), skips the piece silently only if it is a blank or a closed comment (0), and otherwise writes one diagnostic (2).
+//@ func (s *Scanner) scanToken [C09,C08,C10,C18]
+//@ requires [scanner] s != nil && 0 <= s.current && s.current < len(s.source) && s.start == s.current
+//@ requires [line] s.line == 1 + nl(s.source, s.current)
+//@ let a = old(s.start)
+//@ loop 1:
+//@   invariant [bounds] a+2 <= s.current && s.current <= len(s.source) && s.start == a && s.tokens == old(s.tokens) && s.source == old(s.source) && s.line == old(s.line)
+//@   invariant [run] findCp(s.source, a+2, 10) == findCp(s.source, s.current, 10) && src(s.source, a) == 47 && src1(s.source, a) == 47
+//@   invariant [noline] nl(s.source, s.current) == nl(s.source, a)
+//@   invariant [silent] utils.HadError == old(utils.HadError) && stderrN == old(stderrN)
+//@   decreases len(s.source) - s.current
+//@ ensures [kept] len(s.tokens) >= old(len(s.tokens)) && forall(k, 0, old(len(s.tokens)), s.tokens[k] == old(s.tokens[k]))
+//@ ensures [munch] s.current == mmEnd(s.source, a) && a < s.current && s.current <= len(s.source)
+//@ ensures [line] s.line == 1 + nl(s.source, s.current) && s.line >= old(s.line)
+//@ ensures [frame] s.start == a && s.source == old(s.source)
+//@ ensures [token] pieceKind(s.source, a) == 1 ==> len(s.tokens) == old(len(s.tokens))+1 && forall(k, 0, old(len(s.tokens)), s.tokens[k] == old(s.tokens[k])) && s.tokens[old(len(s.tokens))].Lexeme == text(s.source, a, s.current) && s.tokens[old(len(s.tokens))].Line == s.line && utils.HadError == old(utils.HadError) && stderrN == old(stderrN)
+//@ ensures [type] pieceKind(s.source, a) == 1 ==> s.tokens[old(len(s.tokens))].Type == ite(pieceType(s.source, a) == token.IDENTIFIER, keywordType(text(s.source, a, s.current)), pieceType(s.source, a))
+//@ ensures [skip] pieceKind(s.source, a) == 0 ==> s.tokens == old(s.tokens) && utils.HadError == old(utils.HadError) && stderrN == old(stderrN)
+//@ ensures [diag] pieceKind(s.source, a) == 2 ==> s.tokens == old(s.tokens) && utils.HadError && stderrN == old(stderrN)+1 && reportLine(stderr[old(stderrN)]) == s.line
+//@ ensures [literal] pieceKind(s.source, a) == 1 && pieceType(s.source, a) == token.STRING ==> s.tokens[old(len(s.tokens))].Literal == mkStr(text(s.source, a+1, s.current-1))
+//@ ensures [number] pieceKind(s.source, a) == 1 && pieceType(s.source, a) == token.NUMBER ==> s.tokens[old(len(s.tokens))].Literal == mkNum(ext.parsefloat.val(trStr(text(s.source, a, s.current))))
+
+//@ func NewScanner [C09]
+//@ ensures [fields] result != nil && result.source == source && len(result.tokens) == 0 && result.start == 0 && result.current == 0 && result.line == 1
+
+// ScanTokens: the pieces handled by scanToken are contiguous (each starts where the previous one ended) and cover the text;
+// exactly one EOF token closes the list.
+//@ func (s *Scanner) ScanTokens [C09,C08]
+//@ requires [scanner] s != nil && s.current == 0 && s.line == 1 && len(s.tokens) == 0
+//@ loop 1:
+//@   invariant [bounds] 0 <= s.current && s.current <= len(s.source) && s.source == old(s.source)
+//@   invariant [line] s.line == 1 + nl(s.source, s.current) && s.line >= 1
+//@   invariant [tokens] forall(k, 0, len(s.tokens), s.tokens[k].Type != token.EOF && 1 <= s.tokens[k].Line && s.tokens[k].Line <= s.line)
+//@   decreases len(s.source) - s.current
+//@ ensures [consumed] s.current == len(s.source) && s.line == 1 + nl(s.source, len(s.source))
+//@ ensures [eof] len(result) >= 1 && result[len(result)-1].Type == token.EOF && result[len(result)-1].Line == 1 + nl(s.source, len(s.source))
+//@ ensures [oneeof] forall(k, 0, len(result)-1, result[k].Type != token.EOF && 1 <= result[k].Line && result[k].Line <= 1 + nl(s.source, len(s.source)))
